@@ -637,8 +637,14 @@ class TunnelCommunity(Community):
 
         if circuit.state == CIRCUIT_STATE_EXTENDING:
             candidates_enc = payload.candidates_enc
-            candidates_bin = session_keys.decrypt_str(candidates_enc, FORWARD)
-            candidates, _ = self.serializer.unpack("varlenH-list", candidates_bin)
+            try:
+                candidates_bin = session_keys.decrypt_str(candidates_enc, FORWARD)
+                candidates, _ = self.serializer.unpack("varlenH-list", candidates_bin)
+            except Exception:
+                # The hop has been added, but there is nothing to extend with: without this the retry cache of the
+                # previous step stays registered and its timeout re-runs that step on top of the new hop.
+                self.remove_circuit(circuit.circuit_id, "error while decoding the extension candidates")
+                return
             candidates = cast("list[object]", candidates)
 
             relay_candidates = candidates
